@@ -177,7 +177,7 @@ func genMatcher(rng *rand.Rand) lmatch {
 	}
 }
 
-var wrapKinds = []string{"once", "stop", "zero", "post", "postset", "swallow", "twice", "twicedrop", "conc"}
+var wrapKinds = []string{"once", "stop", "zero", "post", "postset", "swallow", "twice", "twicedrop", "conc", "lateg", "lategc", "later", "laterc", "later3"}
 
 func genRandom(rng *rand.Rand, idx int64) *lprog {
 	lp := &lprog{origin: "random#" + strconv.FormatInt(idx, 10)}
@@ -231,7 +231,7 @@ func genRandom(rng *rand.Rand, idx int64) *lprog {
 				lr.act = laction{op: "plain", kind: "ok"}
 			default:
 				k := wrapKinds[rng.Intn(len(wrapKinds))]
-				if k == "twice" || k == "twicedrop" || k == "conc" {
+				if k == "twice" || k == "twicedrop" || k == "conc" || k == "lategc" || k == "laterc" {
 					if multipliers >= 3 {
 						k = pick(rng, "once", "post", "postset", "swallow")
 					} else {
@@ -368,7 +368,7 @@ func templates() []*lprog {
 	// G4: nesting depth 1..6, wrapper at level k, bottom terminator.
 	for d := 1; d <= 6; d++ {
 		for _, z := range ts[:6] {
-			for _, w := range []string{"post", "twice", "conc", "postset"} {
+			for _, w := range []string{"post", "twice", "conc", "postset", "later3", "lategc"} {
 				for k := 0; k <= d; k++ {
 					var seqs [][]lrule
 					for lvl := 0; lvl <= d; lvl++ {
